@@ -509,6 +509,25 @@ func reachesAvoiding(from, to ssa.Instruction, cuts []ssa.Instruction, nonNil ma
 			if cut[in] {
 				return false
 			}
+			// a call of a new single-use helper through which no path avoids the cuts is a cut itself
+			if call, isCall := in.(*ssa.Call); isCall && theCtx != nil && len(cuts) > 0 {
+				if g := call.Call.StaticCallee(); g != nil && theCtx.isNew(g) && theCtx.soleCall(g) == ssa.CallInstruction(call) && g != b.Parent() {
+					through := false
+					entry := g.Blocks[0].Instrs[0]
+					if !cut[entry] {
+						for _, gb := range g.Blocks {
+							if r, ok := gb.Instrs[len(gb.Instrs)-1].(*ssa.Return); ok && (gb == g.Blocks[0] || len(gb.Preds) > 0) {
+								if ssa.Instruction(r) == entry || reachesAvoiding(entry, r, cuts, nil) {
+									through = true
+								}
+							}
+						}
+					}
+					if !through {
+						return false
+					}
+				}
+			}
 		}
 		skip := -1
 		if iff, ok := b.Instrs[len(b.Instrs)-1].(*ssa.If); ok {
